@@ -119,6 +119,12 @@ def edited_variants(g, t):
             out.append(("array-shape", swap(rebuild(c, values={**c.values, k0: np.append(v, v[-1])}))))
         elif v is not None:
             out.append(("value", swap(rebuild(c, values={**c.values, k0: v + 1}))))
+            out.append(("scalar->1-array", swap(rebuild(c, values={**c.values, k0: np.array([v])}))))
+            out.append(("scalar->constant-array", swap(rebuild(c, values={**c.values, k0: np.array([v, v, v])}))))
+        if isinstance(v, np.ndarray) and len(v):
+            out.append(("array->scalar", swap(rebuild(c, values={**c.values, k0: np.full(len(v), v[0])}))) if False else
+                       ("array->first-element", swap(rebuild(c, values={**c.values, k0: v[0].item()}))))
+            out.append(("array-dtype-and-value", swap(rebuild(c, values={**c.values, k0: v.astype(np.float64) + 0.5}))))
         out.append(("value->None", swap(rebuild(c, values={**c.values, k0: None if v is not None else 0}))))
         out.append(("field-name", swap(rebuild(c, values={(k + "_x" if k == k0 else k): w for k, w in c.values.items()}))))
         out.append(("field-dropped", swap(rebuild(c, values={k: w for k, w in c.values.items() if k != k0}))))
